@@ -162,11 +162,21 @@ class Listeners:
         if not spec.is_bounded:
             for listener in self.items:
                 func = getattr(listener.obj, spec.attr_name, None)
-                if func is not None and func.__func__ is spec.func:
+                if func is None:
+                    continue
+                if getattr(func, "__func__", None) is spec.func or (
+                    callable(func) and self._declared_by_base_class(listener.obj, spec)
+                ):
+                    # The second case: the function was declared in a base class of this object and
+                    # a subclass overrides it. The override is used, like for any other method.
                     yield listener.build_key(spec.attr_name), partial(callable_method, func)
                     return
 
         yield f"{spec.attr_name}@None", partial(callable_method, spec.func)
+
+    @staticmethod
+    def _declared_by_base_class(obj, spec) -> bool:
+        return any(vars(klass).get(spec.attr_name) is spec.func for klass in type(obj).__mro__)
 
     def search_name(self, name):
         for listener in self.items:
